@@ -617,6 +617,55 @@ impl CaseSpace for Truncated {
     }
 }
 
+/// A session ends (the reader is reset) while a frame is partly received: every cut of a 47-octet
+/// frame x {close, discard}; the two frames that open the next session are delivered intact.
+struct ResetMidFrame;
+
+impl CaseSpace for ResetMidFrame {
+    fn name(&self) -> String {
+        "reset-while-a-frame-is-partly-received".to_string()
+    }
+    fn total(&self) -> usize {
+        2 * (link::frame_len(31) - 1)
+    }
+    fn run(&self, index: usize, transcript: bool) -> RunResult {
+        let mut res = RunResult::default();
+        let close = index % 2 == 1;
+        let cut = 1 + index / 2;
+        let old = link::frame(0xF3, 1024, 1, &pattern(3, 31));
+        let f1 = LinkFrame::new(0xC0, 1024, 1, &[]);
+        let f2 = LinkFrame::new(0xC4, 1024, 1, &pattern(1, 20));
+        res.obs = index as u64 + 8888;
+        let mut r = LinkReaderSeam::new(close, false, 249, false);
+        r.handle.push(&old[..cut]);
+        let (before, e0) = r.drain();
+        r.reset();
+        let mut stream = f1.encode();
+        stream.extend(f2.encode());
+        r.handle.push(&stream);
+        let (got, e) = r.drain();
+        res.transitions += 2;
+        if transcript {
+            res.transcript.push(format!("close={close}: {cut} octets of a frame, reset, then two frames: before {} / {e0:?}, after {} / {e:?}", before.len(), got.len()));
+        }
+        let want = vec![
+            FrameOut { ctrl: 0xC0, dst: 1024, src: 1, payload: vec![] },
+            FrameOut { ctrl: 0xC4, dst: 1024, src: 1, payload: pattern(1, 20) },
+        ];
+        if !before.is_empty() || e0.is_some() || e.is_some() || got != want {
+            res.violation = Some(Violation::new(
+                "C06.S1",
+                format!("frames-after-a-reset-not-delivered:close={close}"),
+                format!("{cut} octets of a frame received, reader reset, two frames sent: {} delivered, error {:?}", got.len(), e.or(e0)),
+            ));
+            return res;
+        }
+        res.model_states.push(cut as u64);
+        res.nontrivial = true;
+        res
+    }
+}
+
 struct Datagram;
 
 impl CaseSpace for Datagram {
@@ -800,6 +849,9 @@ pub fn replay(name: &str, path: &[usize]) -> Option<RunResult> {
     if Truncated.name() == name {
         return Some(Truncated.run(i, true));
     }
+    if ResetMidFrame.name() == name {
+        return Some(ResetMidFrame.run(i, true));
+    }
     if Datagram.name() == name {
         return Some(Datagram.run(i, true));
     }
@@ -815,6 +867,7 @@ pub fn check(tier: &str) -> i32 {
     }
     c.cases(&build_resync(tier));
     c.cases(&Truncated);
+    c.cases(&ResetMidFrame);
     c.cases(&Datagram);
     c.cases(&Mixed);
     c.finish(
